@@ -64,6 +64,27 @@ def out_fields(v):
     return None
 
 
+def forwarding_rule(ck, F, rule):
+    """the LdpcDecoder impls are pure forwarding (same receiver, same LLR slice, same iteration limit)"""
+    from ..symx import SymEval as _SE
+    n7 = 0
+    for path_ in sorted(k for k in F.bodies if k.endswith(" as decoder::LdpcDecoder>::decode")):
+        bw = F.body(path_)
+        ev_ = _SE(F)
+        envw = {}
+        for p_, nm_ in zip(bw.params, ("self", "llrs", "max_iterations")):
+            ev_.bind(p_, var(nm_), envw)
+        try:
+            vw = ev_.eval(bw.value, envw)
+        except Unsupported as e:
+            raise AnalysisError("%s: unreadable shape: %s" % (path_, e))
+        sched = path_.split("decoder::")[1].split("::")[0]
+        want = app("decoder::%s::Decoder::<A>::decode" % sched, var("self"), var("llrs"), var("max_iterations"))
+        n7 += 1
+        ck.inst(rule, "forwarding:" + sched, vw == want, bw.span, "LdpcDecoder::decode = %r ; required %r" % (vw, want))
+    ck.floor(rule, "LdpcDecoder impls", n7, 2)
+
+
 def run(ck, F, tier):
     ck.explanation = (
         "Decided (S), for both generic schedules (hence all 36 factory decoders, see C18): R1 every Ok exit is guarded by a "
@@ -82,6 +103,7 @@ def run(ck, F, tier):
     ck.rule("R3", "zero-iteration shortcut")
     ck.rule("R4", "parity evaluation in check_llrs; hard_decisions is a positional map")
     ck.rule("R5", "length discipline")
+    ck.rule("R7", "the trait objects the factory hands out run the analysed decode: LdpcDecoder::decode of both schedules forwards (self, llrs, max_iterations) unchanged to the inherent decode")
     ck.rule("R6", "hard-decision hooks of all arithmetics take &self (pure functions of the stored value)")
     ck.trust("rustc HIR of the two generic decode bodies; Iterator::any/filter/count/map/collect semantics")
 
@@ -309,3 +331,5 @@ def run(ck, F, tier):
                 ck.inst("R6", "%s:%s" % (im["self_ty"].rsplit("::", 1)[-1], mem["name"]), recv.startswith("&") and not recv.startswith("&mut"),
                         bb.span, "receiver type %s" % recv)
     ck.floor("R6", "hard-decision hooks", n6, 48)
+
+    forwarding_rule(ck, F, "R7")
